@@ -430,7 +430,12 @@ func WorkerMain(t *testing.T) {
 			default:
 				rec := VioRec{Seed: seed, Vio: *v}
 				if ro.Replay != nil {
-					rp := minimise(t, withRaceCheck(fn, out), &job, seed, ro)
+					var rp *Replay
+					if sh := shrinkers[job.World]; sh != nil && len(ro.Replay.Ops) > 0 && len(ro.Replay.Script) == 0 {
+						rp = minimiseOps(t, withRaceCheck(fn, out), &job, seed, ro, sh)
+					} else {
+						rp = minimise(t, withRaceCheck(fn, out), &job, seed, ro)
+					}
 					rp.Clause, rp.Sig, rp.Detail = rp.Clause, rp.Sig, rp.Detail
 					b, _ := json.MarshalIndent(rp, "", " ")
 					path := fmt.Sprintf("%s.replay-%s-%d.json", job.Out, job.Prop, seed)
@@ -649,4 +654,48 @@ func guarded(limit time.Duration, f func()) (hung bool) {
 	case <-time.After(limit):
 		return true
 	}
+}
+
+// shrinkers propose strictly smaller variants of a world's workload / fault description (the "ops" of a replay
+// file); minimiseOps applies them greedily while the same clause keeps failing.
+var shrinkers = map[string]func(json.RawMessage) []json.RawMessage{}
+
+// RegisterShrinker lets harnesses in other packages plug in a shrinker.
+func RegisterShrinker(world string, f func(json.RawMessage) []json.RawMessage) { shrinkers[world] = f }
+
+func minimiseOps(t *testing.T, fn worldFn, job *Job, seed uint64, ro RunOut, shrink func(json.RawMessage) []json.RawMessage) *Replay {
+	best := *ro.Replay
+	best.Clause, best.Sig, best.Detail = ro.Vio.Clause, ro.Vio.Sig, ro.Vio.Detail
+	best.Hash = fmt.Sprintf("%016x", ro.Hash)
+	deadline := time.Now().Add(60 * time.Second)
+	tries := 0
+	progress := true
+	for progress && tries < 400 && time.Now().Before(deadline) {
+		progress = false
+		for _, cand := range shrink(best.Ops) {
+			if tries >= 400 || time.Now().After(deadline) {
+				break
+			}
+			tries++
+			rp := best
+			rp.Ops = cand
+			rp.Override = true
+			r := fn(t, job, seed, &rp)
+			if r.Vio != nil && r.Vio.Clause == best.Clause && r.Infra == "" && r.Replay != nil {
+				best.Ops = cand
+				best.Detail, best.Sig = r.Vio.Detail, r.Vio.Sig
+				best.Hash = fmt.Sprintf("%016x", r.Hash)
+				best.Config = string(cand)
+				best.Trace = r.Replay.Trace
+				progress = true
+				break
+			}
+		}
+	}
+	return &best
+}
+
+func mustJSON(v interface{}) json.RawMessage {
+	b, _ := json.Marshal(v)
+	return b
 }
